@@ -452,3 +452,48 @@ def run(ctx):
                      'establish for the shipped files); with a repeated category in `categories` the code keeps only the last of the equal columns (modelled, compared in coqc, not judged)',
                      'distinct arrays per sentence (no aliasing); arrays are 2-D in the model, other ranks are checked by the oracle only (must be rejected untouched)',
                      'config_rebank.jsonnet lists its unary rules inline (jsonnet `local`/`import`, outside the subset reader): those 11 pairs are not in GenData.v'])
+
+
+# ---------------------------------------------------------------------------------------------------------------
+def replay(data):
+    """re-execute the failing inputs of a replay file against the implementation and print every entry that is not what the property says"""
+    rc = 0
+    for f in data.get('failures', []):
+        d = f.get('data') or {}
+        print(f"[{f.get('kind')}] {f.get('desc', '')[:300]}")
+        rc = 1
+        if 'tag_scores' not in d:
+            if 'text' in d:
+                try:
+                    v = Category.parse(d['text'])
+                    print(f"   Category.parse({d['text']!r}) = {str(v)!r}; in targets.en: {v in set(Category.parse(s) for s in gen.inventory('en'))}")
+                except Exception as e:      # noqa
+                    print(f"   Category.parse({d['text']!r}) raised {type(e).__name__}: {e}")
+            continue
+        sents = d['sentences']
+        cats = [Category.parse(s) for s in d['categories']]
+        cd = {w: [Category.parse(s) for s in cs] for w, cs in d['dictionary'].items()}
+        arrs = [(numpy.array(t, dtype=numpy.float32), numpy.array(dd, dtype=numpy.float32)) for t, dd in zip(d['tag_scores'], d['dep_scores'])]
+        arrs = [(t if t.ndim >= 2 or t.size else t.reshape(0, len(cats)), dd if dd.ndim >= 2 or dd.size else dd.reshape(0, 1)) for t, dd in arrs]
+        arrs0 = [(t.copy(), dd.copy()) for t, dd in arrs]
+        toks_ = [[Token(word=w) for w in s] for s in sents]
+        doc_arg = toks_[0] if d['doc_form'] == 'one' else toks_
+        sc_arg = ScoringResult(*arrs[0]) if d['scores_form'] == 'one' else [ScoringResult(t, dd) for t, dd in arrs]
+        obs = observe(d.get('fn', 'filter'), doc_arg, sc_arg, cats, cd, d.get('large_negative_value'))
+        print(f"   {d.get('fn', 'filter')} on {d['kind']} input ({d['doc_form']}/{d['scores_form']} forms, {len(sents)} sentence(s), {len(cats)} categories): "
+              f"{'returned' if obs[0] == 'ok' else 'raised ' + obs[1]}")
+        big = numpy.float32(-10e+32 if d.get('large_negative_value') is None else d['large_negative_value'])
+        for k, ((t, dd), (t0, d0)) in enumerate(zip(arrs, arrs0)):
+            if dd.shape != d0.shape or dd.tobytes() != d0.tobytes():
+                print(f'   dependency scores of sentence {k} changed')
+            if t.shape != t0.shape or t.ndim != 2 or k >= len(sents):
+                continue
+            for i, w in enumerate(sents[k][:t.shape[0]]):
+                for j in range(min(len(cats), t.shape[1])):
+                    keep = w not in d['dictionary'] or d['categories'][j] in d['dictionary'][w]
+                    want = t0[i, j] if (keep or obs[0] != 'ok') else big
+                    if t[i, j] != want:
+                        print(f'   tag[{k}][{i}][{j}] word {w!r} category {d["categories"][j]!r}: now {t[i, j]!r}, input {t0[i, j]!r}, the property says {want!r}')
+    for b in data.get('broken_obligations', []):
+        print('broken obligation:', (b.get('name') if isinstance(b, dict) else b[0]))
+    return rc
